@@ -292,6 +292,7 @@ static int mask_op(int how, const sigset_t *set, sigset_t *old, int *err) {
   }
   if (old) bits_to_set(prev, old);
   k->logrec(K_sigmask, how, (int64_t) *m, (int64_t) prev, 0, 0);
+  if (t->child && (prev & ~*m) && k->hooks) k->hooks->on_child_unblock(t, t->child, prev & ~*m);
   return 0;
 }
 
